@@ -221,3 +221,8 @@ def run(ctx):
         back = rmap.get(code)
         ctx.ob('LOOP-MODE', names.get(mode, str(mode)), back == mode, rd.loc(rd.body), 'writer code %s for %s is read back as %s' % (code, names.get(mode, mode), names.get(back, back)), None)
 
+    ctx.rule('STR-GROW', 'psf_store_string: when storage_used + needed exceeds storage_len, the new length has a lower bound L (an arm of its max / the assigned expression) with '
+             'L - (storage_used + needed) >= 0 for all sizes, given storage_used <= storage_len: the copy to storage + storage_used stays inside the reallocated block', floor=2)
+    from engine.strgrow import str_grow
+    str_grow(ctx, prog)
+
